@@ -1457,8 +1457,8 @@ func (s *sim) Apply(op simcore.Op) bool {
 				break
 			}
 		}
-		if r == nil {
-			return false
+		if r == nil || (op.Has("h") && op.Int64("h") != r.h) {
+			return false // a reply drawn for another request (reduced trace)
 		}
 		lb, err, ok := s.makeReply(op, r)
 		if !ok {
@@ -1925,16 +1925,28 @@ func (s *sim) finishCall() {
 	// 1. soundness: everything newly stored is reachable by reference steps, and confirmed
 	for _, h := range newHs {
 		b := post[h]
+		backwards := h < minPre
 		if !b.wf {
-			e.Fail("C09", "stored-malformed", "call %s(h=%d): light block %d stored as trusted is malformed: %s", c.kind, c.h, h, b.why)
+			sig := "stored-malformed"
+			if backwards {
+				sig = "backwards-stored-malformed"
+			}
+			e.Fail("C09", sig, "call %s(h=%d): light block %d stored as trusted is malformed: %s", c.kind, c.h, h, b.why)
 			continue
 		}
 		ok, why := sc.reachable(b, roots, cands)
-		backwards := h < minPre
 		if !ok {
 			sig := "stored-unverifiable"
 			if backwards {
 				sig = "stored-bad-hashlink"
+				// was another copy of that height (one that is hash-linked) fetched in this call?
+				for _, r := range c.replies {
+					if r.blk != nil && r.blk.h == h && r.blk.hash != b.hash {
+						if ok2, _ := sc.reachable(r.blk, roots, cands); ok2 {
+							sig = "backwards-stored-other-copy"
+						}
+					}
+				}
 			}
 			e.Fail("C09", sig, "call %s(h=%d now=%v): header %d (%s, canonical=%v) was stored as trusted but no chain of valid steps leads to it from the trusted set %v: %s",
 				c.kind, c.h, tOff(c.now), h, hx(b.hash), b.canon, s.heights(), why)
@@ -1958,7 +1970,7 @@ func (s *sim) finishCall() {
 			}
 		}
 		for _, r := range c.replies {
-			if r.blk != nil && r.blk.hash != b.hash && servers[r.prov] == 0 && (r.reqH == h || r.reqH == 0) {
+			if r.blk != nil && r.blk.hash != b.hash && (r.reqH == h || (r.reqH == 0 && servers[r.prov] == 0)) {
 				conflicting = true
 			}
 		}
@@ -2023,7 +2035,17 @@ func (s *sim) finishCall() {
 			e.Fail("C09", "evidence-malformed", "provider %d received evidence without a conflicting block", ev.prov)
 		}
 		hash := string(ev.ev.ConflictingBlock.Hash())
-		if served(ev.prov, hash) || !servedByOther(ev.prov, hash) {
+		// the block named must come from the other side: served during this call, and not the
+		// (only) answer of the receiver for that height
+		own := served(ev.prov, hash)
+		if own {
+			for _, r := range c.replies {
+				if r.prov == ev.prov && r.blk != nil && r.blk.h == ev.ev.ConflictingBlock.Height && r.blk.hash != hash {
+					own = false // the receiver answered that height in two ways; the other answer is its side
+				}
+			}
+		}
+		if own || !(served(ev.prov, hash) || servedByOther(ev.prov, hash)) {
 			e.Fail("C09", "evidence-wrong-side", "provider %d received evidence whose conflicting block %s is its own / was never served by the other side", ev.prov, hx(hash))
 		}
 		if !attack && !c.cancelled {
